@@ -128,7 +128,7 @@ func genCase(t *rapid.T) Case {
 	c.Start = rapid.SampledFrom([]string{"execute", "execute", "start", "start", "supervisor"}).Draw(t, "start")
 	switch c.Start {
 	case "execute":
-		c.Stop = rapid.SampledFrom([]string{"ctx", "deadline", "Cancel"}).Draw(t, "stop")
+		c.Stop = rapid.SampledFrom([]string{"ctx", "deadline", "Cancel", "Stop"}).Draw(t, "stop")
 	case "start":
 		c.Stop = rapid.SampledFrom([]string{"ctx", "deadline", "Cancel", "Stop", "Stop", "Restart"}).Draw(t, "stop")
 	default:
@@ -324,6 +324,12 @@ func check(t ev.T, test string, c Case) {
 		t0 = time.Now()
 		p.Cancel()
 	case "Stop":
+		if c.Start == "execute" {
+			// (a Stop() before Execute has begun finds nothing to stop)
+			for end := time.Now().Add(5 * time.Second); !p.IsOn() && time.Now().Before(end); {
+				time.Sleep(200 * time.Microsecond)
+			}
+		}
 		t0 = time.Now()
 		go func() { stopDone <- p.Stop() }()
 	case "Restart":
@@ -338,8 +344,26 @@ func check(t ev.T, test string, c Case) {
 	// ---- (1) the call returns within the bound
 	var execErr error
 	_ = execErr
+	execReturned, stopReturned := false, false
 	released := func() bool {
 		switch {
+		case c.Start == "execute" && c.Stop == "Stop":
+			// both calls must come back: Execute and the Stop that interrupted it
+			if !execReturned {
+				select {
+				case execErr = <-done:
+					execReturned = true
+				default:
+				}
+			}
+			if !stopReturned {
+				select {
+				case <-stopDone:
+					stopReturned = true
+				default:
+				}
+			}
+			return execReturned && stopReturned
 		case c.Start == "execute" || c.Start == "supervisor":
 			select {
 			case execErr = <-done:
